@@ -55,6 +55,8 @@ mpf_urandomb (mpf_t rop, gmp_randstate_t rstate, mp_bitcnt_t nbits)
       nlimbs--;
       exp--;
     }
+  if (nlimbs == 0)
+    exp = 0;			/* canonical zero */
   EXP (rop) = exp;
   SIZ (rop) = nlimbs;
 }
